@@ -12,7 +12,7 @@ from ..par import run_tasks
 from ..report import CONCRETE, INCONCLUSIVE, PROVED, Report
 from ..smt import check
 
-QUICK_FORMATS = [(4, 3), (5, 2), (2, 1), (3, 0), (2, 0), (7, 10), (5, 10), (8, 7), (8, 23), (3, 22), (6, 16), (7, 23)]
+QUICK_FORMATS = [(4, 3), (5, 2), (2, 1), (3, 0), (2, 0), (8, 0), (7, 10), (5, 10), (8, 7), (8, 23), (3, 22), (6, 16), (7, 23)]
 CLAIMS = ["repr", "neighbour", "nearest_tol", "fixed", "idempotent", "odd", "monotone", "always_down", "always_up"]
 STRUCT = ["no_error", "shape_dtype", "unmodified", "elementwise"]
 SHAPES = [(3,), (), (0,), (2, 3)]
